@@ -284,3 +284,65 @@ func FuzzC19GBN(f *testing.F) {
 		}
 	})
 }
+
+// TestC19History: a serialisation stays valid while later packets are
+// serialised and deserialised (the send queue keeps packets for
+// retransmission while new ones are being encoded). All packets of a drawn
+// list are serialised first; then every byte string must still decode to its
+// own packet, and the decoded values must not change while the rest is decoded.
+func TestC19History(t *testing.T) {
+	const unit = "TestC19History"
+	rec := stats.New(t, "C19", unit)
+	if stats.ReplayMode() {
+		t.Skip()
+	}
+	rapid.Check(t, func(rt *rapid.T) {
+		n := rapid.IntRange(2, 12).Draw(rt, "n")
+		msgs := make([]gbn.Message, n)
+		for i := range msgs {
+			switch rapid.IntRange(0, 5).Draw(rt, "type") {
+			case 0:
+				msgs[i] = &gbn.PacketSYN{N: rapid.Uint8().Draw(rt, "n8")}
+			case 1:
+				msgs[i] = &gbn.PacketACK{Seq: rapid.Uint8().Draw(rt, "seq")}
+			case 2:
+				msgs[i] = &gbn.PacketNACK{Seq: rapid.Uint8().Draw(rt, "seq")}
+			default:
+				msgs[i] = &gbn.PacketData{Seq: rapid.Uint8().Draw(rt, "seq"), FinalChunk: rapid.Bool().Draw(rt, "fc"),
+					IsPing: rapid.Bool().Draw(rt, "ping"), Payload: rapid.SliceOfN(rapid.Byte(), 0, 200).Draw(rt, "payload")}
+			}
+		}
+		want := make([]string, n)
+		wire := make([][]byte, n)
+		for i, m := range msgs {
+			want[i] = normMsg(m)
+			b, err := m.Serialize()
+			if err != nil {
+				rt.Fatalf("Serialize(%s): %v", want[i], err)
+			}
+			wire[i] = b
+		}
+		decoded := make([]gbn.Message, n)
+		for i := range wire {
+			d, err := gbn.Deserialize(wire[i])
+			if err != nil {
+				v := fmt.Sprintf("packet #%d (%s) no longer deserialises after %d later packets were serialised: %v", i, want[i], n-1-i, err)
+				rec.Pending(v, "history", map[string]any{"packets": want})
+				rt.Fatalf("%s", v)
+			}
+			decoded[i] = d
+		}
+		for i := range decoded {
+			if got := normMsg(decoded[i]); got != want[i] {
+				v := fmt.Sprintf("packet #%d was serialised as %s; after the other %d packets were serialised and decoded it reads %s", i, want[i], n-1, got)
+				rec.Pending(v, "history", map[string]any{"packets": want})
+				rt.Fatalf("%s", v)
+			}
+		}
+		rec.Case(true, fmt.Sprintf("%v", want), "serialisations_kept_across_later_ones")
+		if rec.WantSample() {
+			rec.Sample(map[string]any{"packets": want})
+		}
+	})
+	rec.Done()
+}
